@@ -17,7 +17,9 @@ import (
 
 // PropConfig: which functions / lemmas carry a property (from /verif/props.json).
 type PropConfig struct {
-	Functions   []string `json:"functions"`    // display names of functions under contract
+	Functions   []string `json:"functions"`    // display names of functions under contract (all their obligations except panics unless "panics")
+	Posts       map[string][]string `json:"posts"` // function display name -> post clause ids that carry this property (others are left to the properties that own them)
+	Panics      bool     `json:"panics"`       // include run-time panic obligations of the listed functions
 	Sweep       []string `json:"sweep"`        // display names: panic sweep only (no contract needed)
 	SweepRoots  []string `json:"sweep_roots"`  // every repo function reachable from these is swept
 	SweepSkip   []string `json:"sweep_skip"`   // display names excluded from the reachability sweep (with reason in Notes)
@@ -144,6 +146,9 @@ func cmdCheck(args []string) int {
 	for _, n := range pc.Functions {
 		addFn(n, true)
 	}
+	for _, n := range sortedKeys(pc.Posts) {
+		addFn(n, true)
+	}
 	for _, n := range pc.Sweep {
 		addFn(n, false)
 	}
@@ -188,9 +193,22 @@ func cmdCheck(args []string) int {
 		if r.Err != "" {
 			engineErrs = append(engineErrs, r.Fn+": "+r.Err)
 		}
+		wantPosts, restrict := pc.Posts[r.Fn]
 		for _, o := range r.Obls {
 			if !kindOK(o.Kind) {
 				continue
+			}
+			if o.Kind == "panic" && r.HasContract && !pc.Panics && !contains(pc.Sweep, r.Fn) {
+				continue // panic freedom of functions under contract is property C15's
+			}
+			if o.Kind == "post" && restrict && len(wantPosts) > 0 && !strings.HasPrefix(o.What, "pkginv.") {
+				id := o.What
+				if i := strings.Index(id, "@"); i >= 0 {
+					id = id[:i]
+				}
+				if !contains(wantPosts, id) {
+					continue
+				}
 			}
 			obls = append(obls, o)
 		}
